@@ -45,7 +45,7 @@ def _sorted_distinct(draw, n, elem):
 
 
 @st.composite
-def geometry_spec(draw, kinds=None, simple_lines=False, allow_degenerate=True, free_prob=True, edges=True, small=False):
+def geometry_spec(draw, kinds=None, simple_lines=False, allow_degenerate=True, free_prob=True, edges=True, small=False, frame=None):
     """A *valid* geometry as {"type":…, "coordinates":…} plus a "meta" dict (scale, flags).
 
     Coordinates are built in unit space [0,4]x[0,4] (dyadic grid or free floats) and mapped
@@ -54,15 +54,18 @@ def geometry_spec(draw, kinds=None, simple_lines=False, allow_degenerate=True, f
     """
     kinds = kinds or ALL_KINDS
     kind = draw(st.sampled_from(kinds))
-    st_ = draw(st.sampled_from(T_SCALES))
-    sf = draw(st.sampled_from(F_SCALES))
     free = draw(st.integers(0, 3)) == 0 if free_prob else False
     u_el = unit_free() if free else unit_grid()
-    t_off = draw(st.sampled_from([0.0, 0.0, st_ * 0.5, st_ * 3.0, 100.0])) if edges else st_ * 3.0
-    flip = draw(st.integers(0, 3)) == 0 if edges else False  # frequencies measured down from MAX
-    f_off = draw(st.sampled_from([0.0, 0.0, sf * 0.5, 1000.0])) if edges else sf * 0.5
-    if f_off + 4 * sf > MAXF:
-        f_off = 0.0
+    if frame is not None:
+        st_, sf, t_off, f_off, flip = frame["ts"], frame["fs"], frame["t_off"], frame["f_off"], frame["flip"]
+    else:
+        st_ = draw(st.sampled_from(T_SCALES))
+        sf = draw(st.sampled_from(F_SCALES))
+        t_off = draw(st.sampled_from([0.0, 0.0, st_ * 0.5, st_ * 3.0, 100.0])) if edges else st_ * 3.0
+        flip = draw(st.integers(0, 3)) == 0 if edges else False  # frequencies measured down from MAX
+        f_off = draw(st.sampled_from([0.0, 0.0, sf * 0.5, 1000.0])) if edges else sf * 0.5
+        if f_off + 4 * sf > MAXF:
+            f_off = 0.0
 
     def T(u):
         return t_off + st_ * u
